@@ -1103,6 +1103,28 @@ class Assembler:
                         last_start = q_ + 1
                     q_ += 1
                 ed.insert(s.t[last_start][1], block)
+            elif 'after_if' in pr:
+                # after the whole `if .. { .. } [else ..]` statement that starts with the anchor text (a hint that needs what
+                # the check established, wherever the statements that use it come afterwards)
+                try:
+                    ka, kb = fp.find_stmt(pr['after_if'], pr.get('n', 0))
+                except ExtractError:
+                    if pr.get('optional'):
+                        continue
+                    raise
+                mm_ = s.match()
+                q_ = ka
+                while True:
+                    while q_ < fp.k_body_close and not s.is_p(q_, '{'):
+                        if s.kind(q_) == 'p' and s.s(q_) in '([':
+                            q_ = mm_[q_]
+                        q_ += 1
+                    q_ = mm_[q_]
+                    if s.is_id(q_ + 1, 'else'):
+                        q_ += 2
+                        continue
+                    break
+                ed.insert(s.t[q_][2], block)
             elif 'after' in pr or 'before' in pr:
                 try:
                     ka, kb = fp.find_stmt(pr.get('after', pr.get('before')), pr.get('n', 0))
